@@ -442,7 +442,7 @@ def run(chk):
         "failure aborts the fold; tr/taptree/sh/wsh/pkh/wpkh/bare lifts and Concrete::lift are extracted the same "
         "way; (R07.4) `normalized()`, applied last by every lift, keeps the truth table on a bounded family (shared "
         "with C18).")
-    chk.trusted = ["spec/semantics.py", "model of the generic tree iterators", "factgen THIR; msverif.interp"]
+    chk.trusted = ["spec/semantics.py", "factgen THIR; msverif.interp"]
     chk.assumptions = ["equivalence over all worlds beyond `same formula as the specification` is not decided",
                        "Semantic::normalized preserves meaning (C18, only partially decided)"]
     check_lift_table(chk, F)
@@ -452,3 +452,9 @@ def run(chk):
     from . import c18
     chk.guard("R07.4", "normalized", c18.check_normalized_small, chk, F, "R07.4")
     chk.guard("R07.5", "lift-vs-execution", check_lift_vs_execution, chk, F)
+    # the lifts fold over TreeLike::post_order_iter (and normalized over rtl_post_order_iter), which the rules above
+    # evaluate through the analyser's model: the model is the source's behaviour (rule shared with C20)
+    from . import c20
+    from ..report import RuleAlias
+    chk.guard("R07.6", "tree-iterators", c20.check_tree_iterators, RuleAlias(chk, {"R20.10": "R07.6"}, "the traversal the "
+              "lifts fold over"), F)
